@@ -40,4 +40,15 @@ theorem pass_trailing {W : Type} (Wd : World W) (mode : Mode) (le : List Char) (
     | firstExec => cases (s.tags.hasTags && mode != .clean) <;> simp [txtppSem]
     | exec => cases (s.tags.hasTags && mode != .clean) <;> simp [txtppSem]
 
+/-- With the option on, an output whose source ends with an ordinary text line (not a directive
+line, not a continuation of the block before it) ends with that line followed by a line ending;
+with the option off the final line ending is absent: `out_on = out_off ++ le`, and `out_off` ends
+with the line as written (after tag substitution). -/
+theorem trailing_text_last {D σ : Type} (S : Sem D σ) (s0 : σ) (ls : List (List Char)) (l : List Char)
+    (hd : S.detect l = none) (hcont : ∀ d, S.addLine d l = none) (htext : ∀ s, ∃ l', (S.text s l).2 = some l')
+    (s : σ) (out : List Char) (h : machine S false s0 (ls ++ [l]) = some (s, out)) :
+    machine S true s0 (ls ++ [l]) = some (s, out ++ S.le) ∧
+    ∃ pre l', out = pre ++ l' ∧ ∃ s', (S.text s' l).2 = some l' :=
+  Refine.trailing_text_last S s0 ls l hd hcont htext s out h
+
 end C13
